@@ -70,21 +70,66 @@ def key (s : St) : String :=
 def internalActs (s : St) : List Act :=
   (range s.ntasks).map Act.task ++ (range s.nconns).map Act.back
 
-/-- all quiescent states reachable from `inits` under every interleaving of internal steps -/
-partial def settle (cfg : Cfg) (inits : List St) : List St :=
-  let rec go (stack : List St) (seen : Std.HashSet String) (out : List St) (budget : Nat) : List St :=
+/-- Partial-order reduction.  A step is *safe* when it touches only its goroutine's own record (or a write-once
+    field nobody else writes) and commutes with every step of every other goroutine: the request-local steps
+    `event`, `post` (repaired variant), `wait` once the result is there, a `cancel` that closes nothing; of a backend
+    read loop the delivery of the final result (`j5`), the self-close after a refusal, and the login/transition
+    outcomes that only complete the connection's own request.  Exploring a safe step FIRST and ALONE loses no
+    quiescent state. -/
+def safeAct (cfg : Cfg) (s : St) : Act → Bool
+  | .task i =>
+    let T := s.tasks i
+    match T.pc with
+    | .event => true
+    | .post => !cfg.foreignReset || T.mode == .indication || T.res == some .ok || T.res == some .err || T.res == none
+    | .wait => match T.conn with | some c => (s.conns c).result.isSome | none => false
+    | .cancel => T.mode == .plain &&
+        (match T.conn with
+         | some c => !((s.conns c).phase == .login || (s.conns c).phase == .transition)
+         | none => true)
+    | _ => false
+  | .back c =>
+    let C := s.conns c
+    match C.h with
+    | .j5 => true
+    | .closeSelf => true
+    | .idle =>
+      !C.stalled &&
+      (match C.phase, C.beh with
+       | .login, .kickLogin => true
+       | .login, .eofLogin => true
+       | .login, .enc => true
+       | .login, .accept => !cfg.modern
+       | .login, .kickTrans => !cfg.modern
+       | .login, .eofTrans => !cfg.modern
+       | .login, .kickConfig => !cfg.modern
+       | .transition, .kickTrans => true
+       | .transition, .kickConfig => true
+       | .transition, .eofTrans => true
+       | _, _ => false)
+    | _ => false
+  | _ => false
+
+/-- all quiescent states reachable from `inits` under every interleaving of internal steps (up to the reduction);
+    the flag tells whether the search budget was exhausted -/
+partial def settle (cfg : Cfg) (inits : List St) : List St × Bool :=
+  let rec go (stack : List St) (seen : Std.HashSet String) (out : List St) (budget : Nat) : List St × Bool :=
     match stack with
-    | [] => out
+    | [] => (out, false)
     | s :: rest =>
-      if budget = 0 then out else
-      let succs := (internalActs s).filterMap (step cfg s)
+      if budget = 0 then (out, true) else
+      let acts := internalActs s
+      let succs :=
+        match acts.findSome? (fun a => if safeAct cfg s a then step cfg s a else none) with
+        | some s' => [s']
+        | none => acts.filterMap (step cfg s)
       if succs.isEmpty then go rest seen (s :: out) (budget - 1)
       else
         let (stack', seen') := succs.foldl (fun (acc : List St × Std.HashSet String) s' =>
           let k := key s'
           if acc.2.contains k then acc else (s' :: acc.1, acc.2.insert k)) (rest, seen)
         go stack' seen' out (budget - 1)
-  go inits (inits.foldl (fun h s => h.insert (key s)) {}) [] 200000
+  go inits (inits.foldl (fun h s => h.insert (key s)) {}) [] 60000
 
 structure DS where
   cfg : Cfg := repaired false []
@@ -100,11 +145,12 @@ def dedupe (l : List (St × List Nat)) : List (St × List Nat) :=
     if acc.2.contains k then acc else (x :: acc.1, acc.2.insert k)) ([], {})).1.reverse
 
 /-- apply `f` (environment actions, returns the new state and extra ids to report) to every candidate, settle -/
-def advance (d : DS) (f : St → List Nat → Option (St × List Nat)) : List (St × List Nat) :=
-  dedupe <| d.states.flatMap fun (s, ids) =>
+def advance (d : DS) (f : St → List Nat → Option (St × List Nat)) : List (St × List Nat) × Bool :=
+  let rs := d.states.map fun (s, ids) =>
     match f s ids with
-    | none => []
-    | some (s', ids') => (settle d.cfg [s']).map (·, ids')
+    | none => ([], false)
+    | some (s', ids') => let (fin, ex) := settle d.cfg [s']; (fin.map (·, ids'), ex)
+  (dedupe (rs.flatMap (·.1)), rs.any (·.2))
 
 def spawnPlain (s : St) (dst : Nat) : St × Nat :=
   (spawnTask s { pc := .check1, mode := .plain, orig := dst, dest := dst, ev := .allow }, s.ntasks)
@@ -140,7 +186,7 @@ def obsWords (s : String) : List String := (s.splitOn " ").filter (fun w => w.co
 
 /-- The property, evaluated on the IMPLEMENTATION's output of one op.
     `outstanding` = number of requests the harness knows to be in flight (blocked on a stalled backend) before the op. -/
-def judge (d : DS) (op : String) (args : List String) (impl : String) : String :=
+def judge (d : DS) (op : String) (args : List String) (impl : String) (mp : Nat) : String :=
   let ws := impl.splitOn " "
   let o := parseObs (obsWords impl)
   let prev := parseObs (obsWords d.prevObs)
@@ -161,7 +207,8 @@ def judge (d : DS) (op : String) (args : List String) (impl : String) : String :
   | none =>
     match op, args, ws with
     | "req", [dst], r :: _ =>
-      if d.outstanding > 0 then
+      if mp > d.outstanding + d.orphaned + 1 then "viol:two-attempts-in-flight"
+      else if d.outstanding > 0 then
         (if r = "inprogress" && unchanged then "ok" else "viol:inflight-not-reported")
       else if r = "ok" then (if o.cur = dst then "ok" else "viol:not-on-destination")
       else if r = "already" then (if unchanged && prev.cur = dst then "ok" else "viol:noop-side-effect")
@@ -170,17 +217,19 @@ def judge (d : DS) (op : String) (args : List String) (impl : String) : String :
       else -- disconnected / err: previous server kept (or, 1.20.2+, given up during configuration)
         (if o.cur = prev.cur || (d.cfg.modern && o.cur = "-") then "ok" else "viol:failed-unsafe")
     | "par", [a, b], r1 :: r2 :: _ =>
-      if d.outstanding > 0 then (if r1 = "inprogress" && r2 = "inprogress" && unchanged then "ok" else "viol:inflight-not-reported")
+      if mp > d.outstanding + d.orphaned + 1 then "viol:two-attempts-in-flight"
+      else if d.outstanding > 0 then (if r1 = "inprogress" && r2 = "inprogress" && unchanged then "ok" else "viol:inflight-not-reported")
       else
         let oks := (if r1 = "ok" then [a] else []) ++ (if r2 = "ok" then [b] else [])
         if oks.isEmpty then (if o.cur = prev.cur || (d.cfg.modern && o.cur = "-") then "ok" else "viol:failed-unsafe")
         else if oks.contains o.cur then "ok" else "viol:not-on-destination"
     | "race", [a, b], r1 :: r2 :: _ =>
-      -- both requests were held between the check and the publication of their connection: exactly one may proceed
-      if r1 = "ok" && r2 = "ok" then "viol:two-attempts-passed-check"
+      -- both requests were held between the check and the publication of their connection: the backends must never
+      -- see two unanswered login attempts at the same time
+      if mp > d.outstanding + d.orphaned + 1 then "viol:two-attempts-in-flight"
       else
         let oks := (if r1 = "ok" then [a] else []) ++ (if r2 = "ok" then [b] else [])
-        if oks.isEmpty then (if o.act then "ok" else "viol:two-attempts-passed-check")
+        if oks.isEmpty then (if o.act then "ok" else "viol:two-attempts-in-flight")
         else if oks.contains o.cur then "ok" else "viol:not-on-destination"
     | "kick", _, _ =>
       if d.outstanding > 0 && o.cur ≠ "-" && o.cur ≠ prev.cur then "viol:kick-redirect-while-in-flight" else "ok"
@@ -191,7 +240,16 @@ def judge (d : DS) (op : String) (args : List String) (impl : String) : String :
       if r.contains "ok" && o.cur = "-" then "viol:not-on-destination" else "ok"
     | _, _, _ => "ok"
 
-def stepDriver (d : DS) (c : Case) : DS × String × String :=
+/-- the implementation's output without the backend-side `mp=` token (judged by the spec only), and that token's value -/
+def splitMp (impl : String) : String × Nat :=
+  let ws := impl.splitOn " "
+  match ws.getLast? with
+  | some w => if w.startsWith "mp=" then (" ".intercalate ws.dropLast, (w.drop 3).toString.toNat?.getD 0) else (impl, 0)
+  | none => (impl, 0)
+
+def stepDriver (d : DS) (c0 : Case) : DS × String × String :=
+  let (core, mp) := splitMp c0.impl
+  let c : Case := { c0 with impl := core }
   match c.op, c.args with
   | "reset", [_proto, m, try_, scripts] =>
     let cfg := repaired (m = "1") ((try_.splitOn ",").map srvOf)
@@ -201,68 +259,74 @@ def stepDriver (d : DS) (c : Case) : DS × String × String :=
     let l := (behs.splitOn ".").filterMap parseBeh
     ({ d with states := d.states.map fun (s, ids) => ({ s with scripts := upd s.scripts (srvOf srv) l }, ids) }, "ok", "-")
   | op, args =>
-    -- candidate renderings after this op
-    let cands : List (String × (St × List Nat)) :=
+    -- environment action(s) of this op and the rendering of a quiescent state
+    let spec : Option ((St → List Nat → Option (St × List Nat)) × ((St × List Nat) → String × (St × List Nat))) :=
       match op, args with
       | "login", [] =>
-        (advance d fun s ids =>
+        some (fun s ids =>
           match d.cfg.try_ with
           | [] => none
-          | t0 :: _ => some (spawnTask s { pc := .check1, mode := .indication, orig := t0, dest := t0, ev := .allow }, ids)).map
-          fun (s, ids) => ((if s.active then "ok " else "fail ") ++ observe s, (s, ids))
+          | t0 :: _ => some (spawnTask s { pc := .check1, mode := .indication, orig := t0, dest := t0, ev := .allow }, ids),
+          fun (s, ids) => ((if s.active then "ok " else "fail ") ++ observe s, (s, ids)))
       | "req", [dst] =>
-        (advance d fun s ids => let (s', i) := spawnPlain s (srvOf dst); some (s', ids ++ [i])).map
-          fun (s, ids) => (taskRes s ids.getLast! ++ " " ++ observe s, (s, ids.dropLast))
+        some (fun s ids => let (s', i) := spawnPlain s (srvOf dst); some (s', ids ++ [i]),
+          fun (s, ids) => (taskRes s ids.getLast! ++ " " ++ observe s, (s, ids.dropLast)))
       | "start", [dst] =>
-        (advance d fun s ids => let (s', i) := spawnPlain s (srvOf dst); some (s', ids ++ [i])).map
+        some (fun s ids => let (s', i) := spawnPlain s (srvOf dst); some (s', ids ++ [i]),
           fun (s, ids) =>
             let r := taskRes s ids.getLast!
             if r = "blocked" then ("stalled " ++ observe s, (s, ids))
-            else ("returned:" ++ r ++ " " ++ observe s, (s, ids.dropLast))
+            else ("returned:" ++ r ++ " " ++ observe s, (s, ids.dropLast)))
       | "release", [] =>
-        (advance d fun s ids =>
-          some ((range s.nconns).foldl (fun s c => (step d.cfg s (.release c)).getD s) s, ids)).map
-          fun (s, ids) => (",".intercalate (ids.map (taskRes s)) ++ " " ++ observe s, (s, []))
+        some (fun s ids => some ((range s.nconns).foldl (fun s c => (step d.cfg s (.release c)).getD s) s, ids),
+          fun (s, ids) => (",".intercalate (ids.map (taskRes s)) ++ " " ++ observe s, (s, [])))
       | "par", [a, b] =>
-        (advance d fun s ids =>
+        some (fun s ids =>
           let (s1, i) := spawnPlain s (srvOf a)
           let (s2, j) := spawnPlain s1 (srvOf b)
-          some (s2, ids ++ [i, j])).map
+          some (s2, ids ++ [i, j]),
           fun (s, ids) =>
             let j := ids.getLast!
             let i := ids.dropLast.getLast!
-            (taskRes s i ++ " " ++ taskRes s j ++ " " ++ observe s, (s, ids.dropLast.dropLast))
+            (taskRes s i ++ " " ++ taskRes s j ++ " " ++ observe s, (s, ids.dropLast.dropLast)))
       | "race", [a, b] =>
-        (advance d fun s ids =>
+        some (fun s ids =>
           let (s1, i) := spawnPlain s (srvOf a)
           let (s2, j) := spawnPlain s1 (srvOf b)
-          some (s2, ids ++ [i, j])).map
+          some (s2, ids ++ [i, j]),
           fun (s, ids) =>
             let j := ids.getLast!
             let i := ids.dropLast.getLast!
-            (taskRes s i ++ " " ++ taskRes s j ++ " " ++ observe s, (s, ids.dropLast.dropLast))
+            (taskRes s i ++ " " ++ taskRes s j ++ " " ++ observe s, (s, ids.dropLast.dropLast)))
       | "kick", [srv] =>
-        (advance d fun s ids =>
+        some (fun s ids =>
           match (range s.nconns).find? fun c => (s.conns c).phase = .play && (s.conns c).server = srvOf srv with
           | some c => (step d.cfg s (.kick c)).map (·, ids)
-          | none => some (s, 0 :: ids)).map fun (s, ids) =>
+          | none => some (s, 0 :: ids),
+          fun (s, ids) =>
             match ids with
             | 0 :: rest => ("nolive " ++ observe s, (s, rest))
-            | _ => (observe s, (s, ids))
+            | _ => (observe s, (s, ids)))
       | "drop", [srv] =>
-        (advance d fun s ids =>
+        some (fun s ids =>
           match (range s.nconns).find? fun c => (s.conns c).phase = .play && (s.conns c).server = srvOf srv with
           | some c => (step d.cfg s (.drop c)).map (·, ids)
-          | none => some (s, 0 :: ids)).map fun (s, ids) =>
+          | none => some (s, 0 :: ids),
+          fun (s, ids) =>
             match ids with
             | 0 :: rest => ("nolive " ++ observe s, (s, rest))
-            | _ => (observe s, (s, ids))
+            | _ => (observe s, (s, ids)))
       | "quit", [] =>
-        (advance d fun s ids => (step d.cfg s .quit).map (·, ids)).map fun (s, ids) => (observe s, (s, ids))
-      | _, _ => []
-    let verdict := judge d op args c.impl
+        some (fun s ids => (step d.cfg s .quit).map (·, ids), fun (s, ids) => (observe s, (s, ids)))
+      | _, _ => none
+    let (cands, exhausted) : List (String × (St × List Nat)) × Bool :=
+      match spec with
+      | some (f, render) => let (fin, ex) := advance d f; (fin.map render, ex)
+      | none => ([], false)
+    let verdict := judge d op args c.impl mp
     let matching := cands.filter (·.1 = c.impl)
     let out := if !matching.isEmpty then c.impl else
+      if exhausted then "search-budget-exhausted" else
       match (cands.map (·.1)).toArray.qsort (· < ·) |>.toList with
       | x :: _ => x
       | [] => "no-model-state"
@@ -280,7 +344,8 @@ def stepDriver (d : DS) (c : Case) : DS × String × String :=
       | "kick" => if c.impl.startsWith "nolive" then d.orphaned else d.orphaned + d.outstanding
       | "drop" => if c.impl.startsWith "nolive" then d.orphaned else d.orphaned + d.outstanding
       | _ => d.orphaned
-    ({ d with states := dedupe states', prevObs := c.impl, outstanding := outstanding', orphaned := orphaned' }, out, verdict)
+    ({ d with states := dedupe states', prevObs := c.impl, outstanding := outstanding', orphaned := orphaned' },
+     out ++ " mp=" ++ toString mp, verdict)
 
 end Gate.C16
 
